@@ -457,6 +457,7 @@ type SpecFunc struct {
 	Result  string
 	Body    SExpr // nil = uninterpreted
 	BodySrc string
+	Opaque  bool // calls are abstracted to an uninterpreted application unless the contract under verification reveals it
 }
 
 type Contract struct {
@@ -572,9 +573,14 @@ func (sf *SpecFile) load(path string) error {
 				return fail(fmt.Errorf("expected 'spec func'"))
 			}
 			rest = strings.TrimSpace(rest[5:])
+			opaque := false
+			if strings.HasPrefix(rest, "opaque ") {
+				opaque = true
+				rest = strings.TrimSpace(rest[7:])
+			}
 			op := strings.Index(rest, "(")
 			cp := matchParen(rest, op)
-			f := &SpecFunc{Name: strings.TrimSpace(rest[:op])}
+			f := &SpecFunc{Name: strings.TrimSpace(rest[:op]), Opaque: opaque}
 			ps := strings.TrimSpace(rest[op+1 : cp])
 			if ps != "" {
 				for _, part := range strings.Split(ps, ",") {
@@ -791,6 +797,15 @@ func (sf *SpecFile) load(path string) error {
 				cur.Inits = map[string]SExpr{}
 			}
 			cur.Inits[strings.TrimSpace(rest[:eq])] = x
+		case "reveal":
+			if cur == nil {
+				return fail(fmt.Errorf("clause outside func"))
+			}
+			for _, g := range strings.Split(rest, ",") {
+				if g = strings.TrimSpace(g); g != "" {
+					cur.Opts["reveal:"+g] = "1"
+				}
+			}
 		case "trusted":
 			if cur == nil {
 				return fail(fmt.Errorf("clause outside func"))
